@@ -158,6 +158,7 @@ const Prelude = `
 (declare-fun str_cat (Str Str) Str)
 (declare-const str_empty Str)
 (assert (= (str_len str_empty) 0))
+(assert (forall ((s Str)) (! (>= (str_len s) 0) :pattern ((str_len s)))))
 (declare-fun saddr (Slice Int) Ref)
 (assert (forall ((s Slice) (i Int)) (! (= (saddr s i) (elem (sarr s) (+ (soff s) i))) :pattern ((saddr s i)))))
 (define-fun wfslice ((s Slice)) Bool (and (<= 0 (soff s)) (<= 0 (slen s)) (<= (slen s) (scap s)) (=> (= (sarr s) nil) (= (scap s) 0))))
